@@ -72,6 +72,11 @@ func genC12(t *rapid.T) c12Scen {
 		}
 		if l.SubV == 5 && l.E > 0 && rapid.IntRange(0, 2).Draw(t, "retx") == 0 {
 			l.RetxMs = rapid.SampledFrom([]int{400, 1500, 2600}).Draw(t, "retxms")
+			// aimed (half of them): a long lifetime and a first delivery after the message has already waited whole seconds,
+			// so that a retransmission computed from anything but the original interval and the entry time is off by >= 2 s
+			if l.Mode != "online" && rapid.Bool().Draw(t, "retx_aimed") {
+				l.E, l.WaitMs = rapid.SampledFrom([]int{30, 100}).Draw(t, "retx_e"), 2600
+			}
 		}
 		if l.SubV == 5 && l.Mode != "online" && rapid.IntRange(0, 3).Draw(t, "oversize") == 0 {
 			l.Oversize = rapid.IntRange(1, 2).Draw(t, "noversize")
